@@ -26,6 +26,24 @@ def rate_leaf(v):
     return v[0] == 't' and v[1] == 'field' and v[2][0][0] == 't' and v[2][0][1] == 'as' and v[2][0][2][1] == 'Some'
 
 
+def conversion_failed(conds):
+    """does this path know that the given rate is NOT representable in ppb: the None edge of a checked product, the Err
+    edge of a narrowing conversion of the product, or an explicit range test on the rate / product that failed"""
+    for term, op, val, _ in conds:
+        if not any(rate_leaf(y) for y in psi.walk(term)):
+            continue
+        if term[0] == 't' and term[1] == 'discr' and term[2][0][0] == 't' and term[2][0][1] in ('checked_mul', 'checked_add'):
+            if (op == '==' and val == 0) or (op == '!=' and 1 in val):
+                return True
+        n = common.cmp_norm(term)
+        t_ = common.cond_truth(op, val)
+        if n is not None and t_ is not None and arith.const_num(n[2]) is not None:
+            cop = n[0] if t_ else common.NEG[n[0]]
+            if cop in ('gt', 'ge') and arith.const_num(n[2]) >= 4294967:       # rate (or product) above what u32 ppb can hold
+                return True
+    return False
+
+
 def analyse_value(v, conds, asserts):
     """classify the term passed as max_drift_ppb: returns (ok, description)"""
     if psi.is_int_const(v):
@@ -147,7 +165,7 @@ def run(ctx, chk):
         if not runs and p.kind == 'return':
             # a refusal path: must be an Err return
             # (a path that ends start-up after looking at the rate itself: a failed checked_mul, try_from, range test ..)
-            if any(any(rate_leaf(y) for y in psi.walk(c[0])) for c in p.conds):
+            if conversion_failed(p.conds):
                 is_err = p.value[0] == 'agg' and p.value[2] == 'Err'
                 chk.ob('C19.R3', 'main:refusal-is-error-exit', is_err, p.where[2],
                        'unrepresentable rate: main returns %s' % fmt(p.value)[:60])
